@@ -17,3 +17,26 @@ pub fn observe_relation(n: &Uint, r: &Relation) {
         f(n, r)
     }
 }
+
+thread_local! {
+    /// Seed of the next block Lanczos random block on this thread (None = thread_rng).
+    static LANCZOS_SEED: std::cell::Cell<Option<u64>> = std::cell::Cell::new(None);
+}
+
+/// Make block Lanczos deterministic on the calling thread (None restores thread_rng).
+pub fn set_lanczos_seed(seed: Option<u64>) {
+    LANCZOS_SEED.with(|s| s.set(seed));
+}
+
+/// The random source of `matrix::gf2::genblock`.
+pub fn lanczos_rng() -> Box<dyn rand::RngCore> {
+    use rand::SeedableRng;
+    match LANCZOS_SEED.with(|s| s.get()) {
+        None => Box::new(rand::thread_rng()),
+        Some(seed) => {
+            // successive blocks of one run use successive seeds
+            LANCZOS_SEED.with(|s| s.set(Some(seed.wrapping_add(0x9e3779b97f4a7c15))));
+            Box::new(rand::rngs::StdRng::seed_from_u64(seed))
+        }
+    }
+}
